@@ -2,6 +2,7 @@ package checks
 
 import (
 	"fmt"
+	"strings"
 	"math"
 	"math/big"
 	"reflect"
@@ -23,7 +24,122 @@ import (
 // Oracle: independent arithmetic (reflect.Convert + wide arithmetic wrapped to the kind), Exact comparison,
 // and the kind predicted by checker.Check.
 
-func init() { core.RegisterJudge("C14", "arith", judgeC14) }
+func init() {
+	core.RegisterJudge("C14", "arith", judgeC14)
+	core.RegisterJudge("C14", "cond", judgeC14Cond)
+	core.RegisterJudge("C14", "litfold", judgeC14LitFold)
+}
+
+// cond: `Sel ? A : B` over members of two numeric kinds yields the operand of the branch taken, unconverted; a
+// concrete numeric type predicted by the checker must be the run-time type; and comparing the conditional with
+// a third operand follows the promotion rule on the value actually produced.
+func judgeC14Cond(c *core.Case, cfg *core.Config) core.Verdict {
+	ka, kb := core.KindByName(c.Str("ka")), core.KindByName(c.Str("kb"))
+	a, b := core.ParseNum(ka, c.Str("a")), core.ParseNum(kb, c.Str("b"))
+	sel := c.Bool("sel")
+	v := core.Verdict{Key: fmt.Sprint(c.P)}
+	env := map[string]interface{}{"A": a, "B": b, "Sel": sel, "C": 7}
+	taken := b
+	if sel {
+		taken = a
+	}
+	for _, src := range []string{"Sel ? A : B", "(Sel ? A : B) == C", "(Sel ? A : 0) == C", "(Sel ? 7 : B) == 7", "(Sel ? A : B) + 0"} {
+		key := fmt.Sprintf("cond|%s|%v|%v", src, ka, kb)
+		p := c14Compile(key, src, true, map[string]interface{}{"A": reflect.Zero(core.GoNumType(ka)).Interface(), "B": reflect.Zero(core.GoNumType(kb)).Interface(), "Sel": false, "C": 0})
+		if p.err != nil {
+			v.Violation = fmt.Sprintf("%s over (%v, %v) is rejected: %s", src, ka, kb, firstLine(p.err.Error()))
+			return v
+		}
+		got, err := run(p.prog, env)
+		var want interface{}
+		switch src {
+		case "Sel ? A : B":
+			want = taken
+		case "(Sel ? A : B) == C":
+			want, _, _ = core.RefArith("==", taken, 7)
+		case "(Sel ? A : 0) == C":
+			t := interface{}(0)
+			if sel {
+				t = a
+			}
+			want, _, _ = core.RefArith("==", t, 7)
+		case "(Sel ? 7 : B) == 7":
+			t := interface{}(7)
+			if !sel {
+				t = b
+			}
+			want, _, _ = core.RefArith("==", t, 7)
+		default:
+			want, _, _ = core.RefArith("+", taken, 0)
+		}
+		if err != nil {
+			v.Violation = fmt.Sprintf("%s with A=%s(%v) B=%s(%v) Sel=%v fails: %s (expected %s)", src, ka, a, kb, b, sel, firstLine(err.Error()), core.Show(want))
+			return v
+		}
+		if !core.Exact(got, want) {
+			v.Violation = fmt.Sprintf("%s with A=%s(%v) B=%s(%v) Sel=%v: expected %s, got %s", src, ka, a, kb, b, sel, core.Show(want), core.Show(got))
+			return v
+		}
+		// (the `+ 0` form is arithmetic with a dynamically typed operand whenever the branches differ in kind: the
+		// checker's int claim there is known finding F26, not judged here)
+		if src != "(Sel ? A : B) + 0" && p.typ != nil && p.typ.Kind() != reflect.Interface && reflect.TypeOf(got) != p.typ {
+			v.Violation = fmt.Sprintf("%s with A %s, B %s, Sel=%v: the checker predicts %v, the run yields %s", src, ka, kb, sel, p.typ, core.Show(got))
+			return v
+		}
+	}
+	v.Classes = append(v.Classes, "cond")
+	v.NonTriv = ka != kb
+	return v
+}
+
+// litfold: arithmetic on two integer literals, bare and as the argument of a function with a float64 / float32 /
+// int8 / uint16 parameter (where the checker re-types the literals): the optimised and the unoptimised program
+// must give Exact results, and the bare form must equal Go int arithmetic.
+func judgeC14LitFold(c *core.Case, cfg *core.Config) core.Verdict {
+	op := c.Str("op")
+	a, b := c.Int("a"), c.Int("b")
+	v := core.Verdict{Key: fmt.Sprint(c.P)}
+	for _, ctx := range []string{"%s", "Half(%s)", "H32(%s)", "I8fn(%s)", "U16fn(%s)", "Half(1 + %s)"} {
+		src := fmt.Sprintf(ctx, fmt.Sprintf("%d %s %d", a, op, b))
+		var res [2]runOut
+		for i, opt := range []bool{true, false} {
+			p, err := compile(src, expr.Env(core.Env{}), expr.Optimize(opt))
+			if err != nil {
+				res[i] = runOut{err: err}
+				continue
+			}
+			out, err := run(p, core.Env{})
+			res[i] = runOut{val: out, err: err}
+		}
+		if (res[0].err != nil) != (res[1].err != nil) {
+			if res[0].err != nil && res[1].err == nil && (op == "/" || op == "%") && b == 0 && strings.Contains(res[0].err.Error(), "divide by zero") {
+				continue // the optimiser may move a constant division by zero to compile time (C02)
+			}
+			if res[0].err != nil && res[1].err == nil {
+				v.Violation = fmt.Sprintf("%s: optimised %s, unoptimised %s", src, res[0], res[1])
+				return v
+			}
+			if res[1].err != nil && res[0].err == nil {
+				v.Violation = fmt.Sprintf("%s: optimised %s, unoptimised %s", src, res[0], res[1])
+				return v
+			}
+		}
+		if res[0].err == nil && !core.Exact(res[0].val, res[1].val) {
+			v.Violation = fmt.Sprintf("%s: the optimised program returns %s, the unoptimised one %s", src, core.Show(res[0].val), core.Show(res[1].val))
+			return v
+		}
+		if ctx == "%s" && res[1].err == nil {
+			want, dz, ok := core.RefArith(op, a, b)
+			if ok && !dz && !core.Exact(res[1].val, want) {
+				v.Violation = fmt.Sprintf("%s: expected %s, got %s", src, core.Show(want), core.Show(res[1].val))
+				return v
+			}
+		}
+	}
+	v.Classes = append(v.Classes, "litfold:"+op)
+	v.NonTriv = a > 1<<24 || b > 1<<24
+	return v
+}
 
 var c14Ops = []string{"+", "-", "*", "/", "%", "==", "!=", "<", "<=", ">", ">=", "**"}
 
@@ -293,6 +409,45 @@ func TestC14(t *testing.T) {
 		}
 	})
 	if !okGrid {
+		return
+	}
+	// conditionals over every ordered pair of kinds, both branches
+	if !core.RunEnum(t, rec, "cond", func(yield func(*core.Case) bool) {
+		for _, ka := range core.NumKinds {
+			for _, kb := range core.NumKinds {
+				for _, a := range []string{"0", "7", "1"} {
+					for _, b := range []string{"7", "3"} {
+						for _, sel := range []bool{true, false} {
+							c := pcase("C14", "cond")
+							c.P["ka"], c.P["kb"], c.P["a"], c.P["b"], c.P["sel"] = ka.String(), kb.String(), a, b, sel
+							c.Source = fmt.Sprintf("Sel ? A : B with A %v, B %v", ka, kb)
+							if !yield(c) {
+								return
+							}
+						}
+					}
+				}
+			}
+		}
+	}) {
+		return
+	}
+	// literal-literal arithmetic, bare and as a re-typed call argument
+	if !core.RunEnum(t, rec, "litfold", func(yield func(*core.Case) bool) {
+		vals := []int{0, 1, 2, 3, 7, 100, 127, 128, 255, 256, 65535, 65536, 16777216, 16777217, 2147483647, 9007199254740992, 9007199254740993, 9223372036854775806, 9223372036854775807}
+		for _, op := range []string{"+", "-", "*", "/", "%", "**", "==", "<"} {
+			for _, a := range vals {
+				for _, b := range vals {
+					c := pcase("C14", "litfold")
+					c.P["op"], c.P["a"], c.P["b"] = op, a, b
+					c.Source = fmt.Sprintf("%d %s %d", a, op, b)
+					if !yield(c) {
+						return
+					}
+				}
+			}
+		}
+	}) {
 		return
 	}
 	core.RunRapid(t, rec, "random", cfg.N(30000, 400000), func(rt *rapid.T) *core.Case {
